@@ -348,6 +348,23 @@ class C03(Prop):
                                     {'dt': rng.choice([0.01, 0.1, 0.3])}])})
                 out.append(op)
             ops = out
+        if rng.random() < 0.1:
+            # the wall clock is stepped while grace periods run: they are
+            # lengths of time, not differences of wall-clock readings
+            out = []
+            for op in ops:
+                out.append(op)
+                if op['op'] == 'req' and op['cmd'] in (
+                        'stop', 'restart', 'kill', 'decr', 'reload'):
+                    out.append({'op': 'clockjump',
+                                # (no large step backwards: tornado's
+                                # PeriodicCallback then pauses the periodic
+                                # check for as long - DESIGN 10.4)
+                                'delta': rng.choice([3600.0, 86400.0, 2.0,
+                                                     -2.0, -0.5, 0.2]),
+                                'place': {'dt': rng.choice(
+                                    [0.01, 0.04, 0.12, 0.3, 0.6])}})
+            ops = out
         for op in ops:
             if op['op'] == 'req' and op['cmd'] == 'set' and \
                     rng.random() < 0.4:
